@@ -535,10 +535,10 @@ PROPERTIES = {
              "contract-based deductive verification (Kani: complete arithmetic contracts + bounded sequential data-structure contract)",
              "partial: sequential content only." + BOUNDED_NOTE,
              note="Trusted: Kani/CBMC; atomics executed sequentially by CBMC; rayon/parking_lot not reached.", assumptions=["single thread"]),
-    "C10": P("other", "slab layout proved for ALL sizes that pass alloc's guards and alloc's guards themselves (complete, Kani); prefix-penalty arithmetic for all start positions (complete); u16 headroom on the matrix path by Verus induction; panic/overflow/bounds freedom and history independence (arbitrary prior scratch content, reused matcher) by CBMC's built-in checks inside every bounded string-level harness.",
+    "C10": P("other", "slab layout proved for ALL sizes that pass alloc's guards and alloc's guards themselves (complete, Kani); prefix-penalty arithmetic for all start positions (complete); u16 headroom on the matrix path by Verus induction; panic/overflow/bounds freedom by CBMC's built-in checks inside every bounded string-level harness; history independence as three clauses: arbitrary prior scratch content gives the same result, a second call on a used matcher agrees, and every entry point leaves the configuration untouched (frame condition).",
              "contract-based deductive verification (Kani complete layout/guard contracts + Verus induction + bounded string-level contracts with CBMC safety checks)",
              "Layout/guards/arithmetic complete; totality and history independence on bounded strings." + BOUNDED_NOTE),
-    "C11": P("other", "partial: drop-exactly-once decided for bounded sequential non-panicking histories of one vector (extend with honest/short iterators, push, drop), incl. non-contiguous buckets. Panicking callbacks, concurrent drops, restart are not decided.",
+    "C11": P("other", "partial: drop-exactly-once decided for bounded sequential non-panicking histories of one vector (extend with honest/short iterators, push, drop), over-reporting iterators must panic; the history with non-contiguous buckets (the one that exposed the Drop defect) takes ~10 min and runs in the thorough tier only. Panicking callbacks, concurrent drops, restart are not decided.",
              "contract-based deductive verification (Kani bounded data-structure contract with drop-counting payload)",
              "partial: sequential non-panicking histories." + BOUNDED_NOTE,
              note="Trusted: Kani/CBMC; no unwinding (Kani aborts on panic); single thread.", assumptions=["single thread; no panics"]),
